@@ -279,6 +279,9 @@ func (C05) execute(p *Plan, r *simkit.Run) *simkit.Violation {
 			return mk("txn-leak:events", "committed-txn-publishes-one-batch", label, fmt.Sprintf("%d event batches for one transaction", after.batches-before.batches))
 		}
 		// read-your-writes for KV reads that follow KV writes of the same key in this transaction
+		if v := checkResultsCorrespond(variant, resp); v != "" {
+			return mk("txn-results", "results-correspond-to-operations-in-order", label, v)
+		}
 		if v := checkReadYourWrites(variant, resp, idx); v != "" {
 			return mk("txn-partial", "ops-see-earlier-ops", label, v)
 		}
@@ -337,6 +340,40 @@ func (C05) execute(p *Plan, r *simkit.Run) *simkit.Violation {
 		r.Sig(s.Op)
 	}
 	return nil
+}
+
+// checkResultsCorrespond: "returns their results" - every result belongs to one operation, in
+// operation order; only a tree read may own several results, and no operation owns a result twice.
+func checkResultsCorrespond(txn Step, resp structs.TxnResponse) string {
+	j := 0
+	for ri, res := range resp.Results {
+		matched := false
+		for j < len(txn.Ops) && !matched {
+			o := txn.Ops[j]
+			switch {
+			case res.KV != nil && IsKV(o.Op):
+				matched = o.Key == res.KV.Key || (o.Op == "kv.get-tree" && strings.HasPrefix(res.KV.Key, o.Key))
+			case res.Node != nil && strings.HasPrefix(o.Op, "node."):
+				matched = strings.EqualFold(o.Node, res.Node.Node) || (o.NodeID != "" && o.NodeID == string(res.Node.ID))
+			case res.Service != nil && strings.HasPrefix(o.Op, "service."):
+				id := o.SvcID
+				if id == "" {
+					id = o.Svc
+				}
+				matched = id == res.Service.ID
+			case res.Check != nil && strings.HasPrefix(o.Op, "check.") && len(o.Checks) > 0:
+				matched = o.Checks[0].ID == string(res.Check.CheckID)
+			}
+			if !matched || o.Op != "kv.get-tree" {
+				j++
+			}
+		}
+		if !matched {
+			return fmt.Sprintf("result %d of %d (%s) does not belong to any remaining operation of the transaction, in order: the result list is not the list of the operations' results",
+				ri, len(resp.Results), simkit.Trunc(simkit.Canon(res, "RaftIndex"), 200))
+		}
+	}
+	return ""
 }
 
 // checkReadYourWrites: a kv.get / kv.get-or-empty that follows a kv.set of the same key (with no
